@@ -356,7 +356,7 @@ func (c *compiler) compileMap(ce *ast.CallExpr) *mapTask {
 	}
 
 	typ := c.info.TypeOf(mmap)
-	mtype, ok := typ.(*types.Map)
+	mtype, ok := typ.Underlying().(*types.Map)
 	if !ok {
 		c.errf(c.nodePosition(mmap), "the second argument to cff.Map must be a map, got %v", typ)
 		return nil
